@@ -1,1 +1,36 @@
-From ZB Require Import Api.Api.
+(* C13 - a finished request leaves nothing behind, however it finished. *)
+From Coq Require Import NArith List Bool.
+From ZB Require Import Api.Api Api.ApiProofs.
+Import ListNotations.
+Open Scope N_scope.
+
+(* for every event history: a request that is over (response, timeout, cancellation at any point, disconnection,
+   refusal) never has a pending future, i.e. no one-shot waiter of it is registered *)
+Theorem C13_no_waiter_left_behind : forall evs, Forall good (reqs (run_events evs)).
+Proof. exact finished_requests_have_no_pending_waiter. Qed.
+Print Assumptions C13_no_waiter_left_behind.
+
+(* a response arriving when no live waiter of its command exists (it comes late) changes no request *)
+Theorem C13_late_response_discarded : forall s cls,
+  (forall r, In r (waiters s) -> r_cls r <> cls) -> reqs (step s (ERsp cls)) = reqs s.
+Proof. exact late_response_discarded. Qed.
+Print Assumptions C13_late_response_discarded.
+
+(* a response resolves the oldest LIVE waiter of its command: finished requests are skipped, so the next request
+   for the same command receives its own response *)
+Theorem C13_response_goes_to_a_live_waiter : forall s cls r, oldest_waiter s cls = Some r -> In r (waiters s) /\ r_cls r = cls.
+Proof. exact response_goes_to_oldest_live_waiter. Qed.
+Print Assumptions C13_response_goes_to_a_live_waiter.
+
+(* a request either returns a response or raises: the outcome type has no "returned nothing" (ORsp | OTimeout |
+   OCancelled | ORuntime); the correspondence check maps an implementation `None` return to a disagreement *)
+Theorem C13_outcomes : forall o : outcome, o = ORsp \/ o = OTimeout \/ o = OCancelled \/ o = ORuntime.
+Proof. intros []; auto. Qed.
+Print Assumptions C13_outcomes.
+
+Example C13_instance :
+  let s := run_events [EIssue 1 10 true 1 5000; EIssue 2 10 true 1 5000; ECancel 2; EAck 0; ECancel 1; ERsp 10;
+                       EIssue 3 10 true 1 5000; EAck 1; ERsp 10] in
+  map (fun r => (r_id r, r_phase r)) (reqs s) = [(1%nat, PDone OCancelled); (2%nat, PDone OCancelled); (3%nat, PDone ORsp)]
+  /\ waiters s = [].
+Proof. vm_compute. split; reflexivity. Qed.
